@@ -116,7 +116,10 @@ use super::il::{Scalar, Expression, Env, EvalR, Loc, eval_spec, expr_sane, expr_
 use super::il_subst::{replace_spec, repl_g, map_spec, map_result, env_upd, lemma_subst_eval};
 use super::graph;
 use super::executor::eval;
-use super::fixed_point;
+// `fixed_point::X` in lib/analysis/constants.rs names the trait and the solver of lib/analysis/fixed_point.rs;
+// unit C09 splits that file into two modules (trait + theory / forward solver)
+pub mod fixed_point { pub use super::super::fixed_point::*; pub use super::super::fixed_point_engine::*; }
+use self::fixed_point::*;
 use std::collections::HashMap;
 use std::cmp::PartialOrd;
 use vstd::std_specs::iter::IteratorSpec;
@@ -124,6 +127,8 @@ broadcast use {scalar_hash::axiom_scalar_obeys_key_model, vstd::std_specs::hash:
 //@ include units/C13/constants_spec.rs
 //@ include units/C13/constants_core.rs
 //@ include units/C13/constants_analysis.rs
+//@ include units/C13/constants_fn.rs
+//@ include units/C13/constants_theory.rs
 proof fn vf_canary_constants() ensures false {}
 } // mod constants
 
